@@ -70,12 +70,14 @@ func (ds *dataStore) newStoreKeyUnlocked(keyName string) *storeKey {
 // makes a full copy of a store key, optionally into a different data store
 func (ds *dataStore) copyStoreKeyUnlocked(srcKeyName, destKeyName string, dds *dataStore, overwrite bool) (newSk *storeKey, destExists bool) {
 	sk, exists := ds.getStoreKey(srcKeyName)
-	if !exists {
+	if !exists || sk.isExpiredUnlocked() {
+		// (a key whose time to live has run out is missing, even while its object is still stored)
 		return
 	}
 
 	if !overwrite {
-		_, destExists = dds.getStoreKey(destKeyName)
+		dsk, dExists := dds.getStoreKey(destKeyName)
+		destExists = dExists && !dsk.isExpiredUnlocked()
 		if destExists {
 			return
 		}
@@ -90,12 +92,14 @@ func (ds *dataStore) copyStoreKeyUnlocked(srcKeyName, destKeyName string, dds *d
 // moves a store key, optionally into a different data store
 func (ds *dataStore) moveStoreKeyUnlocked(srcKeyName, destKeyName string, dds *dataStore, overwrite bool) (newSk *storeKey, destExists bool) {
 	sk, exists := ds.getStoreKey(srcKeyName)
-	if !exists {
+	if !exists || sk.isExpiredUnlocked() {
+		// (a key whose time to live has run out is missing, even while its object is still stored)
 		return
 	}
 
 	if !overwrite {
-		_, destExists = dds.getStoreKey(destKeyName)
+		dsk, dExists := dds.getStoreKey(destKeyName)
+		destExists = dExists && !dsk.isExpiredUnlocked()
 		if destExists {
 			return
 		}
